@@ -202,7 +202,15 @@ requests or earlier PINs); no PIN given at all = any code is accepted (documente
 The pairing code is a function of the PIN, so a request is represented by the PIN its code was
 derived from (`none` = a code that belongs to no PIN). -/
 
-inductive DOp | pin (p : Nat) | request (code : Option Nat) | finish
+inductive DOp
+  | pin (p : Nat)
+  | request (code : Option Nat)
+  /-- a request whose code is checked but whose `cmpa` answer cannot be encoded with the handler's
+      configuration (pairing guid wider than 64 bit or not hexadecimal, remote name that is not
+      UTF-8 encodable): `handle_request` raises before `_has_paired = True`, the device gets an
+      error status — the exchange has failed whatever the code was -/
+  | badReply (code : Option Nat)
+  | finish
   deriving DecidableEq, Repr
 
 structure DSt where
@@ -221,6 +229,7 @@ def accepts (pin : Option Nat) (code : Option Nat) : Bool :=
 def dstep (s : DSt) : DOp → DSt
   | .pin p => { s with pin := some p }
   | .request c => if accepts s.pin c then { s with paired := true } else s
+  | .badReply _ => s
   | .finish => if s.paired then { s with stored := true } else s
 
 def drun (ops : List DOp) : DSt := ops.foldl dstep DSt.init
@@ -235,6 +244,7 @@ def lastPin : List DOp → Option Nat
 def answers : DSt → List DOp → List Bool
   | _, [] => []
   | s, .request c :: r => accepts s.pin c :: answers (dstep s (.request c)) r
+  | s, .badReply _ :: r => false :: answers s r
   | s, op :: r => answers (dstep s op) r
 
 /-! ## well-formedness predicates (all decidable, computed) -/
